@@ -665,6 +665,10 @@ def rule_i(prog, chk):
                 continue
             uses_pos = idx["k"] == "DeclRefExpr" and idx.get("d") in pos
             through = any(y["k"] == "MCall" and (y.get("callee") or "").split("::")[-1] == "getActiveCovList" for y in walk(idx))
+            if not through and idx["k"] == "DeclRefExpr" and idx.get("dk") == "var":
+                dfn = single_def(f, idx["d"])
+                through = dfn is not None and dfn is not idx and any(
+                    y["k"] == "MCall" and (y.get("callee") or "").split("::")[-1] == "getActiveCovList" for y in walk(dfn))
             if not uses_pos and not through:
                 continue
             n += 1
